@@ -32,7 +32,7 @@ from easynetwork.protocol import StreamProtocol
 from easynetwork.serializers.line import StringLineSerializer
 
 from vsim.backend import SimAsyncIOBackend, sim_sockets
-from vsim.harness import swarm_selector
+from vsim.harness import draw_rate
 from vsim.loop import run_async
 from vsim.runner import Harness
 from vsim.sock import SimNet, SimSocket
@@ -225,7 +225,11 @@ def _run(world: World, sc: dict, *, cancel_iter: int | None = None, cancel_time:
     async def amain() -> None:
         loop = asyncio.get_running_loop()
         if perturb:
-            swarm_selector(world, loop.sim_selector)  # type: ignore[attr-defined]
+            # no spurious readiness here: asyncio (like every connect() user) reads "writable + SO_ERROR == 0" as
+            # "connected", so a spurious write event on a connecting socket would be a simulator artefact
+            sel = loop.sim_selector  # type: ignore[attr-defined]
+            sel.hold_den = draw_rate(world, "sw.hold", (0, 0, 8, 3))
+            sel.reorder = bool(world.choose("sw.reorder", 2))
         task = loop.create_task(connector(), name="connector")
         it0 = world.counters["loop_iterations"]
 
@@ -286,11 +290,16 @@ def _run(world: World, sc: dict, *, cancel_iter: int | None = None, cancel_time:
             pass
         await asyncio.sleep(0)
 
-    with sim_sockets(net):
-        run_async(world, amain)
-    res["started"] = list(started)
-    res["never_started"] = never_started[0]
-    world.log("outcome", mode, label, res["outcome"], type(res["exc"]).__name__ if res["exc"] is not None else "", len(res.get("open", ())))
+    try:
+        with sim_sockets(net):
+            run_async(world, amain, det_tasks=True)
+        res["started"] = list(started)
+        res["never_started"] = never_started[0]
+        world.log("outcome", mode, label, res["outcome"], type(res["exc"]).__name__ if res["exc"] is not None else "", len(res.get("open", ())))
+    finally:
+        # the trace of a run ends with the run: sockets leaked by a (mutated) library are closed later by finalizers at a
+        # GC-dependent moment; those late ``close`` records must not reach the digest
+        world.log = lambda *a, **k: None  # type: ignore[method-assign]
     return res
 
 
@@ -328,6 +337,13 @@ def _check(world: World, sc: dict, res: dict, family: str, extra: str = "") -> N
         raise bad("connect-terminates")
     out = res["outcome"]
     opened = res["open"]
+    world.probe("outcome_" + str(out))
+    if len(res["established"]) >= 2:
+        world.probe("two_or_more_attempts_connected")
+    if res["hang"]:
+        world.probe("hang_behind_never_attempt")
+    if out == "ok" and res["cancel_sent"]:
+        world.probe("success_despite_cancel_request")
     if out == "ok":
         world.progress(1)
         if len(opened) != 1:
@@ -373,7 +389,9 @@ def _h_race(world: World, modes: tuple[str, ...]) -> None:
 def _h_sweep(world: World, modes: tuple[str, ...]) -> None:
     sc = _draw_scenario(world, modes)
     _notes(world, sc)
-    base = _run(World(parent=world), sc, label="base")
+    bw = World(parent=world)
+    bw.quiet = True
+    base = _run(bw, sc, label="base")
     _check(world, sc, base, "sweep-base")
     J = base["J"]
     if J is None:
